@@ -159,9 +159,9 @@ def run_budgeted(ctx, op, limit, fn, det, allowed=()):
 
 def cases(tier, seed):
     yield {"kind": "directed-same-label", "seed": seed}
-    for i in range(1500 if tier == "quick" else 10000):
+    for i in range(8000 if tier == "quick" else 40000):
         yield {"kind": "history", "i": i, "seed": seed}
-    for i in range(600 if tier == "quick" else 6000):
+    for i in range(3000 if tier == "quick" else 15000):
         yield {"kind": "concat", "i": i, "seed": seed}
 
 
